@@ -57,6 +57,9 @@ CHECKS = {
  "C11": ("fault_enumeration", "runtime monitor on the wire: the real NTS client under exhaustively enumerated loss patterns against a scripted NTS-KE + NTS peer that parses every request and tracks the pool level; and the monitor as NTS client of the real listeners (child process) using every cookie it is handed",
          "All loss patterns up to length 7 (quick) / 10 (thorough), drains to an empty pool with re-keying, long random patterns; every request's cookie tag, field types, placeholder count and length checked; server replies checked for size, authentication, cookie count, freshness and later acceptance.",
          "124-byte cookies (the project's size); a lost exchange is a withheld response; cookie validity under server keys observed by spending the cookies, not by opening them", "3/C11"),
+ "C13": ("exploration", "runtime monitor on real sockets: SCION requests with independently computed packet authenticators (scion library spao, mock DRKey) against the real listeners and dispatcher in child processes, and the real authenticated SCION client against a scripted peer; forwarding observed on application sockets",
+         "Authenticated requests served iff the MAC is intact over definitely covered bytes; replies checked for server SPI, a verifying MAC, exchanged addressing, library path reversal, intact SCMP payload; forwarding exactly on the end-host port and never to it; bad MACs never accepted by the client.",
+         "mock keys (zero host-to-host key) instead of a control plane: address changes are bound by key derivation in reality and are not asserted here; hand-built paths", "3/C13"),
 }
 
 NOT_APPLICABLE = {
